@@ -166,7 +166,20 @@ static void *calib_peer(void *p)
 	return NULL;
 }
 
+static void vp_calibrate_clock_once(void);
 void vp_calibrate_clock(void)
+{
+	/* a busy machine (other jobs preempting the ping-pong peers) can spoil one measurement:
+	 * retry before declaring the interval oracles inconclusive */
+	for (int attempt = 0; attempt < 4; attempt++) {
+		vp_calibrate_clock_once();
+		if (vp_eps)
+			return;
+		usleep(20000 * (attempt + 1));
+	}
+}
+
+static void vp_calibrate_clock_once(void)
 {
 	/* frequency */
 	uint64_t n0 = vp_now_ns(), t0 = vp_rdtsc();
